@@ -807,7 +807,8 @@ def run(ctx):
     cases, h = stream_convert(ctx, ctx.pick(2500, 20000))
     hist.update(h)
     bad = coqrun.eval_cases(ctx, "convert", pre, [c["lit"] for c in cases],
-        "fun c : carg * carg * bool * result val => let '(a, b, ex, o) := c in rval_close ex (convert_to a b) o")
+        "fun c : carg * carg * bool * result val => let '(a, b, ex, o) := c in rval_close ex (convert_to a b) o",
+        case_type="carg * carg * bool * result val")
     decide_convert(ctx, cases, bad, pre)
     nontriv = len({c["lit"] for c in cases if c["kind"] != "same" or c["obs"][0] == "err" or c["obs"][1] != ("Q", Fraction(1))})
     ctx.evaluated(len(cases), nontriv)
@@ -831,7 +832,8 @@ def run(ctx):
     # ---- convert_to_si / convert_to_float / dimension_to_si_unit ------------------------------------
     scases, h = stream_si(ctx, ctx.pick(1500, 12000))
     hist.update(h)
-    bad_s = coqrun.eval_cases(ctx, "si", pre, [c["lit"] for c in scases], SI_CHECK)
+    bad_s = coqrun.eval_cases(ctx, "si", pre, [c["lit"] for c in scases], SI_CHECK,
+        case_type="(dim * cres) + (bool * carg * bool * result val)")
     for i in bad_s[:25]:
         c = scases[i]
         ok = spec_si(c["value"], c["obs"]) if c["kind"] not in ("si-unit", "float") else None
@@ -854,7 +856,8 @@ def run(ctx):
 
     # ---- composition ---------------------------------------------------------------------------
     ccases = stream_compose(ctx, ctx.pick(600, 5000))
-    bad_c = coqrun.eval_cases(ctx, "compose", pre, [c["lit"] for c in ccases], COMPOSE_CHECK)
+    bad_c = coqrun.eval_cases(ctx, "compose", pre, [c["lit"] for c in ccases], COMPOSE_CHECK,
+        case_type="carg * carg * carg * (result val * result val * result val)")
     for i in bad_c[:25]:
         c = ccases[i]
         ox, oy, oz = c["obs"]
@@ -877,7 +880,8 @@ def run(ctx):
     # ---- evaluate_expression -------------------------------------------------------------------
     ecases, h = stream_eval(ctx, ctx.pick(800, 6000))
     hist.update(h)
-    bad_e = coqrun.eval_cases(ctx, "evalexpr", pre, [c["lit"] for c in ecases], EVAL_CHECK)
+    bad_e = coqrun.eval_cases(ctx, "evalexpr", pre, [c["lit"] for c in ecases], EVAL_CHECK,
+        case_type="aexpr * qexpr * result val * cres")
     for i in bad_e[:25]:
         c = ecases[i]
         on, oq = c["obs"], c["obs_q"]
@@ -895,7 +899,8 @@ def run(ctx):
 
     # ---- Celsius -------------------------------------------------------------------------------
     tcases, n_float, float_failures = stream_celsius(ctx, ctx.pick(600, 5000), py["offset"])
-    bad_t = coqrun.eval_cases(ctx, "celsius", pre, [c["lit"] for c in tcases], celsius_check_text())
+    bad_t = coqrun.eval_cases(ctx, "celsius", pre, [c["lit"] for c in tcases], celsius_check_text(),
+        case_type="(Q * Q * Q * bool * cres * result val) + ((val * dim) * result val)")
     known_abs_zero = False
     for i in bad_t[:25]:
         c = tcases[i]
